@@ -5,7 +5,7 @@
 Require Import List NArith Bool.
 Import ListNotations.
 Require Import KV.CrossWindow.Model KV.CrossWindow.Spec KV.CrossWindow.RoundProofs KV.CrossWindow.StepProofs
-        KV.CrossWindow.SdsProofs KV.CrossWindow.Tree KV.CrossWindow.Termination KV.CrossWindow.Final KV.CrossWindow.Boundary
+        KV.CrossWindow.SdsProofs KV.CrossWindow.NaiveTerm KV.CrossWindow.Tree KV.CrossWindow.Termination KV.CrossWindow.Final KV.CrossWindow.Boundary
         KV.CrossWindow.SpecProofs KV.CrossWindow.RouteProofs.
 Open Scope N_scope.
 
@@ -133,6 +133,38 @@ Theorem C12_history_total :
 Proof. exact history_total. Qed.
 Print Assumptions C12_history_total.
 
+(* Termination of the model of naive_sds_plus, with an explicit fuel bound (NaiveTerm.v):
+   naive_bound = 1 + 2 * |constants of the alive facts and the rules|^3. *)
+Theorem C12_naive_terminates :
+  forall (fuel : nat) (P : list rule) (rt : N -> option N) (base : list (triple * N)),
+    wf_rules P = true ->
+    (naive_bound P base <= fuel)%nat ->
+    exists l, naive_core fuel P rt base = Some l.
+Proof. exact naive_core_terminates. Qed.
+Print Assumptions C12_naive_terminates.
+
+(* total correctness of the from-scratch reference (C12_naive without its "returns" hypothesis): for every
+   positive safe rule set, every streaming dataset and every evaluation time, the model of naive_sds_plus
+   returns once the fuel reaches the bound, and what it returns is, per component, exactly the set of facts
+   derivable from the alive facts.  No hypothesis on the dataset (sds_ok is not needed here). *)
+Theorem C12_naive_total :
+  forall (fuel : nat) (P : list rule) (S : sds) (now : N),
+    wf_rules P = true ->
+    (naive_bound P (translate S now) <= fuel)%nat ->
+    exists l, naive fuel P S now = Some l /\
+              forall c f, In (c, f) l <-> (route S (tpred f) = Some c /\ derivable P (translate S now) f).
+Proof. exact naive_total. Qed.
+Print Assumptions C12_naive_total.
+
+(* the fuel is only a termination device: two returning runs list the same facts *)
+Theorem C12_naive_fuel_irrelevant :
+  forall (fuel fuel' : nat) (P : list rule) (S : sds) (now : N) (l l' : list (N * triple)),
+    wf_rules P = true ->
+    naive fuel P S now = Some l -> naive fuel' P S now = Some l' ->
+    forall x, In x l <-> In x l'.
+Proof. exact naive_fuel_irrelevant. Qed.
+Print Assumptions C12_naive_fuel_irrelevant.
+
 (* the executable oracle of Spec.v (used by the check on every case) computes E *)
 Theorem C12_spec_oracle :
   forall (P : list rule) (base : list (triple * N)),
@@ -232,6 +264,16 @@ Module Example1.
     | _ => []
     end = [5].
   Proof. vm_compute. split; reflexivity. Qed.
+  (* the from-scratch reference on the second dataset of the history: its bound is reached by a small
+     fuel in practice (the bound itself is cubic in the number of constants), and it lists the same seven
+     facts as the incremental state (C12_history) *)
+  Example naive_runs :
+    match steps with
+    | _ :: (S2, now2) :: _ =>
+        match naive 50 P S2 now2 with Some l => N.of_nat (length l) | None => 0 end
+    | _ => 0
+    end = 7.
+  Proof. vm_compute. reflexivity. Qed.
 End Example1.
 
 (* the inputs of the repaired finding are ordinary admissible histories now: two components list the
